@@ -4,6 +4,10 @@ From FB Require Export C09.Model Base.Run.
 
 Inductive case :=
 | CMerge (A B : mappings) (r : res mappings)      (* Mappings::merge(&A, &B) *)
+| CMergeRaw (A B : mappings) (r : res mappings)
+  (* Mappings::merge(&A, &B) on inputs OUTSIDE wf2 in one respect only: an empty name Some [] in a second
+     column, or an empty second namespace name (reachable through Names::change_name / rename_namespaces).
+     Keys are still derived from the nodes, so the model applies; compared without the wf2 guard. *)
 | CMergeT (tbl : list str) (A B : mappings) (r : res mappings).
   (* the same with a string table: in A, B and r every string is written as the one-element
      list [i] and stands for the i-th entry of tbl (A, B and the result share almost all of
@@ -33,6 +37,7 @@ Definition check_pair (A B : mappings) (r : res mappings) : bool :=
 Definition check (c : case) : bool :=
   match c with
   | CMerge A B r => check_pair A B r
+  | CMergeRaw A B r => negb (wf2 A && wf2 B) && res_eqb mappings_eqb (merge A B) r
   | CMergeT tbl A B r =>
       check_pair (rmappings tbl A) (rmappings tbl B)
         (match r with Ok m => Ok (rmappings tbl m) | Err => Err end)
